@@ -780,7 +780,7 @@ TOTALS = (False, 0, 1, 2, None)
 BUDGET = (None, 0, 1)
 GATES_ALL = [(m, a) for a in ("default", "all", "post") for m in ("GET", "POST", "PUT", "post")]
 GATES_DEEP = [("GET", "default"), ("POST", "default"), ("post", "post"), ("PUT", "all")]
-BACKOFFS = [(0, 120, 0), (0.5, 1, 0), (1, 120, 0.5)]
+BACKOFFS = [(0, 120, 0), (0.5, 1, 0), (1, 120, 0.5), (0.5, 0, 0)]  # last: backoff_max=0 is a cap of zero, not "no cap"
 
 
 def _check_backoff_values():
